@@ -168,6 +168,9 @@ int main(int argc, char** argv)
         sg4::this_actor::sleep_until(T);
         long long fk = f[0], fid = f[1];
         if (fk == 3 || fk == 4) {
+          auto const* im = impls.at(fid);
+          if (im->wannadie() || im->to_be_freed())
+            continue; // that actor is gone
           put("%s %lld %a ", fk == 3 ? "U" : "R", fid, sg4::Engine::get_clock());
           if (fk == 3)
             keep.at(fid)->suspend();
